@@ -80,6 +80,35 @@ class _ShutilShim:
     rmtree = staticmethod(ff.fake_rmtree)
 
 
+class _FakeStat:
+    def __init__(self, mt):
+        self.st_mtime = mt
+        self.st_size = 0
+
+
+class FakeFsPath:
+    """pathlib.Path stand-in for asimap.search (SearchContext.path): stat() is answered by the fake tree."""
+
+    def __init__(self, p):
+        self._p = str(realize(p))
+
+    def stat(self):
+        d, b = _os.path.split(TREE.norm(self._p))
+        rp, dd = TREE.resolve(d)
+        if dd is None or not b.isdigit():
+            raise FileNotFoundError(self._p)
+        for i, k in enumerate(dd.keys):
+            if k == int(b):
+                return _FakeStat(dd.mtimes[i])
+        raise FileNotFoundError(self._p)
+
+    def __str__(self):
+        return self._p
+
+    def __fspath__(self):
+        return self._p
+
+
 _installed = False
 
 
@@ -101,6 +130,9 @@ def install():
     M.time = CLOCK
     U.time = CLOCK
     M.randrange = lambda a, b=None: a
+    import asimap.search as SE
+
+    SE.Path = FakeFsPath
 
     async def get_actual_mtime(mh, name):
         """max(mtime of folder, mtime of .mh_sequences); creates the file if missing (as the real one)."""
@@ -162,8 +194,7 @@ def new_world(db="null", migrated=True):
         srv.db = fdb.make_database(conn)
         srv._conn = conn
         if migrated:
-            conn.raw.execute("INSERT INTO user_server (uid_vv) VALUES (0)") if not conn.raw.execute("SELECT count(*) FROM user_server").fetchone()[0] else None
-            conn.raw.commit()
+            run(srv._restore_from_db())  # the real start-up code: creates the user_server row
     return srv
 
 
@@ -179,8 +210,8 @@ def restart(old_srv):
         conn = fdb.FakeAioConn(old_srv._conn.raw)
         srv.db = fdb.make_database(conn)
         srv._conn = conn
-        row = conn.raw.execute("SELECT uid_vv FROM user_server").fetchone()
-        srv.uid_vv = int(row[0]) if row else 0
+        run(srv.db.apply_migrations())  # Database.new() does this on every start
+        run(srv._restore_from_db())
     return srv
 
 
